@@ -171,8 +171,15 @@ impl Space for MemberRep {
         let item = if !self.enum_host {
             let n = 2 + ctx.choose(self.max_members - 1);
             let mut fields = vec![];
+            let mut active = false; // a repeat block is open: a second `repeat` without `stop_repeat` is a documented conflict
             for k in 0..n {
                 let (attrs, ev) = member_event(ctx, k, STRUCT_CATS, false);
+                match ev {
+                    "repeat" if active => return ctx.reject(), // pruned here instead of after the whole struct is generated
+                    "repeat" | "stop+repeat" => active = true,
+                    "stop" => active = false,
+                    _ => {}
+                }
                 tags.push(format!("e{}={}", k, ev));
                 fields.push(Field { attrs, name: Some(["a", "b", "c", "d", "e", "f"][k].into()), ty: "i32".into() });
             }
@@ -404,9 +411,9 @@ pub fn run(tier: &str) -> i32 {
     let quick = tier == "quick";
     let caps = Caps::from_env(if quick { 150.0 } else { 1500.0 });
     run_space(&MemberRep { max_members: if quick { 3 } else { 4 }, enum_host: false }, if quick { None } else { None }, &caps, &rep);
-    run_space(&MemberRep { max_members: if quick { 2 } else { 3 }, enum_host: true }, if quick { Some(6) } else { Some(8) }, &caps, &rep);
-    run_space(&TraitRep { max_instr: if quick { 3 } else { 4 }, enum_host: false }, if quick { Some(7) } else { None }, &caps, &rep);
-    run_space(&TraitRep { max_instr: if quick { 3 } else { 4 }, enum_host: true }, if quick { Some(6) } else { Some(9) }, &caps, &rep);
+    run_space(&MemberRep { max_members: if quick { 2 } else { 3 }, enum_host: true }, if quick { Some(5) } else { Some(7) }, &caps, &rep);
+    run_space(&TraitRep { max_instr: if quick { 3 } else { 4 }, enum_host: false }, if quick { Some(6) } else { Some(9) }, &caps, &rep);
+    run_space(&TraitRep { max_instr: if quick { 3 } else { 4 }, enum_host: true }, if quick { Some(5) } else { Some(8) }, &caps, &rep);
     rep.finish()
 }
 
